@@ -64,6 +64,8 @@ def run(prog):
         feasible = 0
         for way in ways:
             wf = [(strip(c), v != "0") for c, v, _, d in way]
+            if any((c_, not tr_) in wf for c_, tr_ in wf):
+                continue      # this way of reaching the return tests one condition both ways: dead
             facts += [f for f in wf if f not in facts]
             for s in itertools.product([False, True], repeat=2):
                 ok = True
@@ -105,8 +107,32 @@ def run(prog):
         return (t[2], t[1]) if t[0] == "field" and t[1][0] in ("phi", "gamma") else (None, None)
     ia, pa = comp(A)
     ib, pb_ = comp(B)
+    if pa is None and A[0] == "phi" and B[0] == "phi" and A[1] == B[1] and [p for p, _ in A[2]] == [p for p, _ in B[2]]:
+        # the pair kept in two variables that are exchanged by std::mem::swap: two joins at one block
+        pa = pb_ = ("phi", A[1], tuple((p, ("agg", "tuple", None, None, (va_, vb_), ())) for (p, va_), (_, vb_) in zip(A[2], B[2])))
+        ia, ib = "0", "1"
     shape_known = True
-    if not (ia == "0" and ib == "1" and pa == pb_ and pa is not None):
+    gamma_form = None
+    if pa is None and A[0] == "gamma" and B[0] == "gamma" and A[1] == B[1] and len(A[2]) == 2 and len(B[2]) == 2 and \
+            [l for l, _ in A[2]] == [l for l, _ in B[2]]:
+        # `let (a, b) = if keep { (a, b) } else { (b, a) }` folded into two choices on one condition
+        gamma_form = [(lab, strip(va_), strip(vb_)) for (lab, va_), (_, vb_) in zip(A[2], B[2])]
+    if gamma_form is not None:
+        cond = strip(A[1])
+        sc = show(cond)
+        keep_labs = [lab for lab, va_, vb_ in gamma_form if (va_, vb_) == (a, b)]
+        swap_labs = [lab for lab, va_, vb_ in gamma_form if (va_, vb_) == (b, a)]
+        if len(keep_labs) != 1 or len(swap_labs) != 1:
+            errs.append("normalised pair is chosen among %s" % [(show(x), show(y)) for _, x, y in gamma_form])
+        else:
+            is_or = cond[0] == "gamma" and any(strip(v_)[0] == "const" and str(strip(v_)[2]) in ("1", "true") for _, v_ in cond[2]) and \
+                "is_prime_index(" in sc and " Eq " in sc
+            prime_ok = "is_prime_index(vtree_manager(arg1), vtree_index(arg1, arg2), vtree_index(arg1, arg3))" in sc
+            if not is_or or not prime_ok:
+                errs.append("?the condition that keeps the operand order is %s, not `index(a) == index(b) || is_prime_index(index(a), index(b))`" % sc[:80])
+            elif keep_labs[0] == "0":
+                errs.append("the operands keep their order exactly when a is *not* on the prime side of b")
+    elif not (ia == "0" and ib == "1" and pa == pb_ and pa is not None):
         errs.append("?operands of the helpers are not the two components of one normalised pair")
         shape_known = False
     else:
@@ -132,7 +158,13 @@ def run(prog):
     va = ("call", "vtree_index", A)
     def is_vi(t, X):
         t = strip(t)
-        return mir.is_call(t, "vtree_index") and strip(t[2][-1]) == X
+        if mir.is_call(t, "vtree_index") and strip(t[2][-1]) == X:
+            return True
+        # index(join of operands) written as join of index(operand): the same join, alternative by alternative
+        if t[0] == "phi" and X[0] == "phi" and t[1] == X[1] and len(t[2]) == len(X[2]):
+            return all(p1 == p2 and mir.is_call(strip(v1), "vtree_index") and strip(strip(v1)[2][-1]) == strip(v2)
+                       for (p1, v1), (p2, v2) in zip(t[2], X[2]))
+        return False
     def fact_eq(cs, x_is, y_is, truth):
         for c, val_, _, d in te.facts_at(cs.bb):
             c = strip(c)
